@@ -35,6 +35,19 @@ struct SimCmpT<Tag, false> {
     if (mode == CM_POISON) ++G.opPoisonCmpCalls;
     return cmp_keys(mode, cmp_key_of(a), cmp_key_of(b));
   }
+  // element entirely before the probe's range / the range entirely before the element (in the comparator's own order)
+  template <class A>
+  bool operator()(const A &a, const RangeProbe &p) const {
+    ++G.opCmpCalls; ++G.totCmp;
+    if (mode == CM_POISON) ++G.opPoisonCmpCalls;
+    return cmp_keys(mode, cmp_key_of(a), mode == CM_GREATER ? p.hi : p.lo);
+  }
+  template <class B>
+  bool operator()(const RangeProbe &p, const B &b) const {
+    ++G.opCmpCalls; ++G.totCmp;
+    if (mode == CM_POISON) ++G.opPoisonCmpCalls;
+    return cmp_keys(mode, mode == CM_GREATER ? p.lo : p.hi, cmp_key_of(b));
+  }
 };
 template <int Tag>
 struct SimCmpT<Tag, true> : SimCmpT<Tag, false> {
@@ -44,8 +57,11 @@ struct SimCmpT<Tag, true> : SimCmpT<Tag, false> {
 };
 
 struct ModelCmp {
+  typedef void is_transparent;
   int mode;
   bool operator()(const Val &a, const Val &b) const { return cmp_keys(mode, a.key, b.key); }
+  bool operator()(const Val &a, const RangeProbe &p) const { return cmp_keys(mode, a.key, mode == CM_GREATER ? p.hi : p.lo); }
+  bool operator()(const RangeProbe &p, const Val &b) const { return cmp_keys(mode, mode == CM_GREATER ? p.lo : p.hi, b.key); }
 };
 
 }  // namespace sim
